@@ -26,8 +26,11 @@ def gen_program(rng, i, profile):
     if profile == "invall":
         # an inserting (and maintaining) thread against a thread that invalidates everything and reads
         k = 1
-        progs = [[f"I {k} 101"] + (["S"] if rng.random() < 0.7 else []) + ([f"G {k}"] if rng.random() < 0.3 else []),
-                 [f"D {rng.choice([1, 1000, 600_000_000])}", "A", f"G {k}"] + ([f"C {k}"] if rng.random() < 0.3 else [])]
+        progs = [[f"I {k} 101"] + (["S"] if rng.random() < 0.7 else []) + ([f"G {k}"] if rng.random() < 0.6 else [])
+                 + (["S"] if rng.random() < 0.5 else []),
+                 [f"D {rng.choice([1, 1000, 600_000_000])}"] + ([f"G {k}"] if rng.random() < 0.4 else []) + ["A"]
+                 + (["S"] if rng.random() < 0.6 else []) + [f"G {k}"] + (["S", f"G {k}"] if rng.random() < 0.5 else [])
+                 + ([f"C {k}"] if rng.random() < 0.3 else [])]
         if rng.random() < 0.3:
             progs.append([f"G {k}", "S"])
         for t, ops in enumerate(progs):
@@ -295,6 +298,13 @@ def run(pid, tier, seed, model_ok, replay, nprog=None):
                     f"weigher=none hasher={srng.choice(['id', 'mod:2'])}")
             stress.append((f"stress{i}", [cfgl, f"RW threads={srng.choice([2, 3, 4])} keys={srng.choice([1, 2, 3])} "
                                                 f"ops={srng.choice([40, 80, 120])} seed={srng.randrange(10**6)}"]))
+        if pid == "C09":
+            # beyond the periodic-sync interval, write-heavy: the write queue must be drained by the
+            # inserting threads themselves when it reaches its flush point
+            for i in range(6 if tier == "quick" else 60):
+                cfgl = f"cfg kind=stress cap={srng.choice(['none', 50])} ttl=none tti=none weigher=none hasher=id"
+                stress.append((f"stressw{i}", [cfgl, f"RW threads={srng.choice([3, 4, 6])} keys={srng.choice([50, 500])} "
+                                                     f"ops={srng.choice([5000, 20000])} writes=90 quiet=1 adv=600000000 tick=1000000000 seed={srng.randrange(10**6)}"]))
         cases += stress
     impl = C.run_impl(cases, timeout=300)
     violations, disagreements = [], []
@@ -328,7 +338,12 @@ def run(pid, tier, seed, model_ok, replay, nprog=None):
             dist["preemptive_runs"] += 1
         programs.add("\n".join(l for l in lines if not l.startswith("SCHED")))
         for orc in oracles:
-            if name.startswith("stress") and orc is oracle_termination:
+            if name.startswith("stressw") and orc is not oracle_termination:
+                v = None
+            elif name.startswith("stressw"):
+                v = None if (run_["done"] and "status=ok" in run_["done"]) else \
+                    "write-heavy stress beyond the periodic-sync interval did not complete (inserting threads hang)"
+            elif name.startswith("stress") and orc is oracle_termination:
                 v = None if (run_["done"] and "status=ok" in run_["done"]) else "stress run did not complete"
             else:
                 v = orc(lines, run_)
